@@ -899,8 +899,10 @@ static void complete(CbCtx *c, int status, int timeouts, const std::string &res)
     std::vector<int> pending;
     for (auto &x : w->toks)
       if (x.count == 0 && x.accepted) pending.push_back(x.id); // a request whose entry point is still running is not yet accepted
-    bool nested = w->in_cancel; // an outer ares_cancel is still walking its list: it completes the rest
+    bool nested = w->in_cancel; // an outer ares_cancel (event or callback) is still walking its list: it completes the rest
+    w->in_cancel = true;
     ares_cancel(w->ch);
+    w->in_cancel = nested;
     for (int id : pending)
       if (w->toks[(size_t)id].count == 0 && !nested)
         w->violate("C01:token:not-completed-by-cancel", fmt("token %d had no callback when ares_cancel (called from a callback) returned", id));
